@@ -175,11 +175,17 @@ def record_e2e(sc):
     return tr
 
 
+HANGS = [0]
+
+
 def record(sc):
+    if HANGS[0] >= 3:
+        return None          # the code under test does not terminate: enough evidence, do not burn the time budget
     try:
         with time_limit(180):
             return record_direct(sc) if sc["kind"] == "direct" else record_e2e(sc)
     except Hang:
+        HANGS[0] += 1
         tr = base_trace(sc)
         tr["events"] = [dict(ev="result", rows=[], thr=0, nsim=-1, nbatches=-1)]
         return tr
@@ -294,6 +300,8 @@ def is_f2(sc, tr, verdict):
 
 def check_scenarios(ctx, scs):
     traces = [record(sc) for sc in scs]
+    scs = [sc for sc, tr in zip(scs, traces) if tr is not None]
+    traces = [tr for tr in traces if tr is not None]
     verdicts = ctx.validate("Rejection_Trace", traces, chunk=1500)
     for sc, tr, v in zip(scs, traces, verdicts):
         cons = consumed_draws(tr)
@@ -337,6 +345,8 @@ def run(ctx):
     traces = check_scenarios(ctx, scs)
     ctx.notes.append("%d exhaustive direct sequences, %d random/e2e" % (n_ex, len(scs) - n_ex))
     for i in (0, n_ex // 2, n_ex + 3, len(scs) - 1):
+        if i >= len(traces):
+            continue
         ctx.sample(dict(scenario=scs[i], trace_events=traces[i]["events"][:3]))
 
 
